@@ -251,7 +251,15 @@ pub fn filters(data: &[u8]) {
 pub fn damage(data: &[u8]) {
     let mut u = Unstructured::new(data);
     let dir = scratch();
-    if u.arbitrary().unwrap_or(false) {
+    // a campaign run on behalf of one property exercises (and reports) only that property's half of the target
+    let only = std::env::var("VERIF_FUZZ_PROP").ok();
+    let c05_half: bool = u.arbitrary().unwrap_or(false);
+    match only.as_deref() {
+        Some("C05") if !c05_half => return,
+        Some("C16") if c05_half => return,
+        _ => {}
+    }
+    if c05_half {
         let mut cfg = decode_cfg(&mut u, &[1, 8, 33]);
         cfg.validate_data = u.arbitrary().unwrap_or(false);
         cfg.ignore_corrupted = u.ratio(1, 5).unwrap_or(false);
